@@ -399,6 +399,63 @@ pub fn judge_valid_stream(rep: &mut Report, label: &str, bytes: &[u8], expect: &
     }
 }
 
+/// The raw-frame reader (`FlacStreamReader`) on the frames of a valid stream.  It parses each
+/// frame from its own header (streamable subset), so this applies to streams whose frames all
+/// carry their sample rate and bit depth explicitly; it must then return every frame, in order,
+/// with exactly the samples and parameters the reference decoder derives - fixed and variable
+/// block-size numbering alike.
+pub fn judge_stream_reader(rep: &mut Report, label: &str, bytes: &[u8], d: &flacref::dec::Decoded, replay: &J) {
+    use flac_codec::decode::FlacStreamReader;
+    if d.frames.is_empty() || d.frames.iter().any(|f| f.rate_code == 0 || f.bps_code == 0 || f.rate == 0) {
+        rep.count("stream_reader", "not-applicable (a frame refers to STREAMINFO)");
+        return;
+    }
+    let raw = &bytes[d.frames_start..d.end.min(bytes.len())];
+    let obs = mon::observe(|| -> Result<Vec<(Vec<i32>, u32, u8, u32)>, String> {
+        let mut rd = FlacStreamReader::new(std::io::Cursor::new(raw));
+        let mut out = vec![];
+        loop {
+            match rd.read() {
+                Ok(f) => out.push((f.samples.to_vec(), f.sample_rate, f.channels, f.bits_per_sample)),
+                Err(flac_codec::Error::Io(e)) if e.kind() == std::io::ErrorKind::UnexpectedEof => break,
+                Err(e) => return Err(crate::api::show(&e)),
+            }
+            if out.len() > d.frames.len() + 4 {
+                break;
+            }
+        }
+        Ok(out)
+    });
+    rep.observe_cost(obs.cpu_us, obs.peak_alloc);
+    rep.count("reader", "StreamReader(raw frames)");
+    let got = match obs.result {
+        Err(p) => {
+            rep.violation("panic", format!("decode:{}", p.signature()), format!("{label} FlacStreamReader: {} at {}", p.msg, p.location), replay.clone());
+            return;
+        }
+        Ok(Err(e)) => {
+            rep.violation("decode-error", format!("valid-stream-rejected:StreamReader:{}", err_name(&e)), format!("{label}: FlacStreamReader fails on the frames of a valid stream: {e}"), replay.clone());
+            return;
+        }
+        Ok(Ok(g)) => g,
+    };
+    if got.len() != d.frames.len() {
+        rep.violation("mismatch", "valid-stream-mismatch:StreamReader:frame-count", format!("{label}: FlacStreamReader returned {} frames, the stream has {} (variable block size: {})", got.len(), d.frames.len(), d.frames[0].variable), replay.clone());
+        return;
+    }
+    let mut pos = 0usize;
+    for (i, (f, (samples, rate, ch, bps))) in d.frames.iter().zip(&got).enumerate() {
+        let n = f.block_size as usize;
+        let want = flacref::dec::interleave(&d.pcm.iter().map(|c| c[pos..pos + n].to_vec()).collect::<Vec<_>>());
+        pos += n;
+        if *samples != want || *rate != f.rate || *ch != f.channels || *bps != f.bps as u32 {
+            rep.violation("mismatch", "valid-stream-mismatch:StreamReader", format!("{label}: frame {i}: FlacStreamReader returned rate {rate} ch {ch} bps {bps}, {}", first_diff(samples, &want)), replay.clone());
+            return;
+        }
+    }
+    rep.count("stream_reader", if d.frames[0].variable { "variable-blocksize stream ok" } else { "fixed-blocksize stream ok" });
+}
+
 pub fn run_case(rep: &mut Report, c: &GenCase) {
     rep.case_begin(&format!("{} ch{} bps{} frames{}", c.label, c.params.channels, c.params.bps, c.plans.len()));
     rep.eval();
@@ -441,6 +498,7 @@ pub fn run_case(rep: &mut Report, c: &GenCase) {
             .set("first_frame_subframes", J::Arr(d.frames[0].subframes.iter().map(|s| J::Str(format!("{:?} wasted={} method={} po={}", s.kind, s.wasted, s.method, s.part_order))).collect()))
     });
     judge_valid_stream(rep, &c.label, &g.bytes, &expect, &c.params, &replay, false);
+    judge_stream_reader(rep, &c.label, &g.bytes, &d, &replay);
     if g.bytes.len() <= 20000 {
         judge_valid_stream(rep, &c.label, &g.bytes, &expect, &c.params, &replay, true);
     }
